@@ -281,7 +281,7 @@ def solver_records(rng, count):
                 X, M, flag, it, err = mf._matrix_inverse_root_newton(A, rng.choice([1, 2, 4]), epsilon=eps, max_iterations=maxit, tolerance=tol)
                 resid = float(torch.dist(M, torch.eye(n, dtype=dt), p=torch.inf))
                 rec.update(result="returned", flag=flag.name, it=int(it), err_le_tol=bool(resid <= tol), true_le_guard=True,
-                           finite=bool(torch.isfinite(X).all()))
+                           finite=bool(torch.isfinite(X).all()), err_nan=bool(resid != resid))
             else:
                 root = rng.choice([Fraction(2), Fraction(4), Fraction(4, 3)])
                 X, M, flag, it, terr = mf._matrix_inverse_root_higher_order(A, root, abs_epsilon=eps, max_iterations=maxit, tolerance=tol,
@@ -294,11 +294,11 @@ def solver_records(rng, count):
                     mine = float(torch.linalg.vector_norm(ridge @ torch.linalg.matrix_power(X, root.numerator) - torch.eye(n, dtype=dt), torch.inf))
                     guard_ok = guard_ok and mine <= 0.1 * 1.5
                 rec.update(result="returned", flag=flag.name, it=int(it), err_le_tol=bool(resid <= tol), true_le_guard=bool(guard_ok),
-                           finite=bool(torch.isfinite(X).all()))
+                           finite=bool(torch.isfinite(X).all()), err_nan=bool(resid != resid))
         except ArithmeticError:
-            rec.update(result="ArithmeticError", flag="none", it=0, err_le_tol=False, true_le_guard=False, finite=False)
+            rec.update(result="ArithmeticError", flag="none", it=0, err_le_tol=False, true_le_guard=False, finite=False, err_nan=False)
         except Exception as ex:  # noqa
-            rec.update(result=type(ex).__name__, flag="none", it=0, err_le_tol=False, true_le_guard=False, finite=False)
+            rec.update(result=type(ex).__name__, flag="none", it=0, err_le_tol=False, true_le_guard=False, finite=False, err_nan=False)
         rec["tf32_after"] = bool(torch.backends.cuda.matmul.allow_tf32)
         torch.backends.cuda.matmul.allow_tf32 = before
         recs.append(rec)
